@@ -869,7 +869,7 @@ func runMerge(c fw.Case) fw.Result {
 func init() {
 	fw.Register(&fw.Property{
 		ID: "C16", Level: "exploration",
-		Rule: "generated configuration files (1-4 processes, replica counts {unset,1,2,3,4,10,11}, templates over global/local variables and PC_REPLICA_NUM in command, working_dir, log_location, description, exec and http probe fields, namespaces, launch timeouts), each loaded 5 times and compared as canonical JSON; every templated field of every replica is compared with an independent text/template rendering with that replica's variables; per-replica objects must not be shared; non-trivial = replicas > 1 or variables present; distinct = file content",
+		Rule:        "generated configuration files (1-4 processes, replica counts {unset,1,2,3,4,10,11}, templates over global/local variables and PC_REPLICA_NUM in command, working_dir, log_location, description, exec and http probe fields, namespaces, launch timeouts), each loaded 5 times and compared as canonical JSON; every templated field of every replica is compared with an independent text/template rendering with that replica's variables; per-replica objects must not be shared; non-trivial = replicas > 1 or variables present; distinct = file content",
 		Assumptions: []string{"missing variables render as text/template renders them", "exec probe working_dir is not in the statement's field list and not judged"},
 		Gen: func(seed int64, tier string) []fw.Case {
 			var cs []fw.Case
@@ -884,7 +884,7 @@ func init() {
 	})
 	fw.Register(&fw.Property{
 		ID: "C15", Level: "exploration",
-		Rule: "generated pairs/triples of configuration files over the documented option set (single-valued options, environment lists with hostile values, depends_on, overlapping and disjoint process sets); Load([files]) is compared option by option with a reference merge written from docs/merge.md over the generated values; half of the pairs are also loaded through `extends` from a different directory and compared with naming both files, apart from the working-dir rule; non-trivial = every case (at least one process in two files); distinct = file contents",
+		Rule:        "generated pairs/triples of configuration files over the documented option set (single-valued options, environment lists with hostile values, depends_on, overlapping and disjoint process sets); Load([files]) is compared option by option with a reference merge written from docs/merge.md over the generated values; half of the pairs are also loaded through `extends` from a different directory and compared with naming both files, apart from the working-dir rule; non-trivial = every case (at least one process in two files); distinct = file contents",
 		Assumptions: []string{"only KEY=VALUE entries and non-zero override values are generated (mergo cannot express 'set to zero', the docs do not promise it)", "environment compared as key->value (order is not promised)"},
 		Gen: func(seed int64, tier string) []fw.Case {
 			var cs []fw.Case
